@@ -1292,6 +1292,24 @@ impl Traceable for JsObject {
                 if let Some(JsValue::Object(obj)) = &state.throw_value {
                     visitor(obj.copy_ref());
                 }
+                if let Some(JsValue::Object(obj)) = &state.return_value {
+                    visitor(obj.copy_ref());
+                }
+                // Trace the block scopes to return to, the exception being handled and the
+                // completion a yielding finally block will resume
+                for env in &state.saved_env_stack {
+                    visitor(env.copy_ref());
+                }
+                if let Some(JsValue::Object(obj)) = &state.saved_exception {
+                    visitor(obj.copy_ref());
+                }
+                if let Some(
+                    crate::interpreter::bytecode_vm::SavedCompletion::Return(JsValue::Object(obj))
+                    | crate::interpreter::bytecode_vm::SavedCompletion::Throw(JsValue::Object(obj)),
+                ) = &state.saved_completion
+                {
+                    visitor(obj.copy_ref());
+                }
             }
             ExoticObject::Environment(env_data) => {
                 // Trace all bindings in the environment
@@ -2983,6 +3001,12 @@ pub struct BytecodeGeneratorState {
     pub saved_call_stack: Vec<crate::interpreter::bytecode_vm::CallFrame>,
     /// Saved try stack (for resumption)
     pub saved_try_stack: Vec<crate::interpreter::bytecode_vm::TryHandler>,
+    /// Saved block-scope stack (the environments PopScope returns to after resumption)
+    pub saved_env_stack: Vec<JsObjectRef>,
+    /// Exception being handled by a catch block at the point of suspension
+    pub saved_exception: Option<JsValue>,
+    /// Completion waiting for a finally block that yielded (return / throw / break / continue)
+    pub saved_completion: Option<crate::interpreter::bytecode_vm::SavedCompletion>,
     /// Register to store the result of yield
     pub yield_result_register: Option<u8>,
     /// The function environment (created on first call, reused on subsequent calls)
